@@ -89,7 +89,11 @@ func RunTLC(workDir string, o TLCOpts) (*TLCResult, error) {
 	if o.Timeout == 0 {
 		o.Timeout = 10 * time.Minute
 	}
-	args := []string{"-Xss512m", fmt.Sprintf("-Xmx%dm", o.HeapMB), "-XX:+UseParallelGC"}
+	// SANY unpacks its standard modules into java.io.tmpdir on every start: keep that inside the
+	// run's own directory (removed with it) instead of littering /tmp
+	jtmp := filepath.Join(workDir, "jtmp")
+	os.MkdirAll(jtmp, 0o755)
+	args := []string{"-Xss512m", fmt.Sprintf("-Xmx%dm", o.HeapMB), "-XX:+UseParallelGC", "-Djava.io.tmpdir=" + jtmp}
 	if o.DFS {
 		args = append(args, "-Dtlc2.tool.queue.IStateQueue=StateDeque")
 	}
